@@ -169,7 +169,7 @@ def _part_parser_table(F, b, from_raw):
     LENE = ("adt", "errors::ParseError::InvalidStringLength")
     for ln in (0, 1, 2, 3):
         for dec in (("Some", "V"), ("None",)):
-            asg = {"symbolic": True, "params": {1: "BYTES"}, "calls": {"core::slice::<impl [T]>::len": lambda s_: ln, "parse::hex_str::decode_rev_1": lambda s_: dec}}
+            asg = {"symbolic": True, "no_inline": True, "params": {1: "BYTES"}, "calls": {"core::slice::<impl [T]>::len": lambda s_: ln, "parse::hex_str::decode_rev_1": lambda s_: dec}}
             try:
                 got = evalx.run(S, F, paths, asg)
             except (evalx.Unknown, evalx.Panics) as ex:
